@@ -69,6 +69,15 @@ def runNcg (j : Json) : Option Json := do
     RVec.ofFn fun i =>
       let row := hess.getD i.val []
       (List.zip row vl).foldl (fun acc (p : List Mono × Rat) => acc + polyEval p.1 xl * p.2) 0
+  -- NaN region of the objective (harness objective: poly + 0*log(c - x_k), NaN where x_k >= c)
+  let nanSpec : Option (Nat × Rat) := do
+    let nj ← field? j "nan"
+    let k ← fNat? nj "coord"
+    let cst ← fRat? nj "c"
+    some (k, cst)
+  let nan : RVec n → Bool := fun x => match nanSpec with
+    | some (k, cst) => decide (cst ≤ x.toList.getD k 0)
+    | none => false
   -- Newton configuration
   let miniter ← fNat? j "miniter"
   let maxiter ← fNat? j "maxiter"
@@ -115,24 +124,26 @@ def runNcg (j : Json) : Option Json := do
       NewtonRe.cgOracleStatic base pinAbs pinRes RVec.dot cgnrm hessp a pos g
   let resJ (r : NewtonRe.NRes Rat (RVec n)) : Json :=
     jObj [("x", jApprox r.x.toList), ("status", jInt r.status), ("fun", ratApprox r.fn), ("nit", jNat r.nit)]
-  let eager := NewtonRe.ncgEager c f hessp RVec.dot l1 magnorm cgE x0
+  let eager := NewtonRe.ncgEager c f nan hessp RVec.dot l1 magnorm cgE x0
   let ej : Json := match eager with
     | .ok r => resJ r
     | .error _ => jObj [("error", Json.str "ValueError")]
-  let sj : Json := match NewtonRe.ncgStatic c f hessp RVec.dot l1 magnorm cgS x0 with
+  let sj : Json := match NewtonRe.ncgStatic c f nan hessp RVec.dot l1 magnorm cgS x0 with
     | some r => resJ r
     | none => jObj [("error", Json.str "ValueError")]
   -- trace of the eager run for margin decisions: the model's own step function is driven from here
   let item (st : NewtonRe.NSt Rat (RVec n)) : Json :=
     let (natg, info) := cgE (NewtonRe.eagerCgArgs c magnorm st) st.pos st.g
-    let ls := NewtonRe.lineSearchEager f hessp RVec.dot st.pos st.energy st.g natg
+    let ls := NewtonRe.lineSearchEager f nan hessp RVec.dot st.pos st.energy st.g natg
     let rd := NewtonRe.resetDir RVec.dot hessp st.pos st.g
     let ntr := if ls.found then ls.trials else 9
-    let tes : List Rat := (List.range ntr).map fun t =>
+    let tps : List (RVec n) := (List.range ntr).map fun t =>
       let gs : Rat := if t ≤ 5 then 1 / ratPow 2 t else 1 / ratPow 2 (t - 6)
       let dd := if t ≤ 5 then natg else rd
-      (f (st.pos - gs • dd)).1
-    jObj [("e", ratApprox st.energy), ("trials", jApprox tes), ("found", Json.bool ls.found),
+      st.pos - gs • dd
+    let tes : List Rat := tps.map fun p => (f p).1
+    let tnan : List Json := tps.map fun p => Json.bool (nan p)
+    jObj [("e", ratApprox st.energy), ("trials", jApprox tes), ("found", Json.bool ls.found), ("trialnan", Json.arr tnan.toArray),
           ("dn", ratApprox (ls.gs * l1 ls.dd)), ("ediff", ratApprox (st.energy - ls.newEnergy)),
           ("gg", ratApprox (RVec.dot st.g st.g)), ("curv", ratApprox (RVec.dot st.g (hessp st.pos st.g))),
           ("cginfo", jInt info), ("natg", jApprox natg.toList)]
@@ -141,7 +152,7 @@ def runNcg (j : Json) : Option Json := do
     | 0 => acc.reverse
     | fuel + 1 =>
       let acc := item st :: acc
-      match NewtonRe.ncgEagerStep c f hessp RVec.dot l1 magnorm cgE i st with
+      match NewtonRe.ncgEagerStep c f nan hessp RVec.dot l1 magnorm cgE i st with
       | .next st' => tr fuel (i + 1) st' acc
       | .stop _ => acc.reverse
   let fe0 := f x0
